@@ -466,3 +466,16 @@ _also(["C07.alloc_cap_"], ["C15"])
 _also(["C03.bystander_", "C03.route_fault_owner_send_fails"], ["C11"])
 _also(["C12.send_frame"], ["C10"])
 _also(["C05.ws_header_eof"], ["C12"])
+
+# ------------------------------------------------------------------------------------------------ C15 single allocation failure
+_scn_alloc = dict(_scn, harness="harness/scn_alloc.c", flags=_scn["flags"] + ["--no-bounds-check"],
+                  unwindset=dict(_scn["unwindset"], **{"harness_alloc_failure.0": 12, "harness_alloc_failure.1": 12}))
+_STEPS = [(0, "add"), (1, "fetch"), (2, "change"), (3, "remove"), (4, "unfetch"), (5, "set"), (6, "get"), (7, "config"), (8, "info")]
+for _s, _nm in _STEPS:
+    O(id="C15.alloc_failure_" + _nm, props=["C15", "C06", "C07"], entry="harness_alloc_failure", reach=["no_failure", "failure_injected"],
+      defines=["STEP=%d" % _s, "MAXK=40"],
+      functions=["parse_message", "handle_method", "send_response", "the handler of '%s' and everything it calls" % _nm, "free_peer_resources"],
+      symbolic="index k (0..40) of the allocation attempt that fails during the request (daemon and JSON-library allocations), state value",
+      assumes=["set-up requests succeed (no fault)"], bounds="one '%s' request with one allocation failure, then both peers disconnect; 2 peers, <= 1 element, <= 1 fetch" % _nm,
+      **_scn_alloc)
+_also(["C15.alloc_failure_"], ["C06", "C07"])
